@@ -264,3 +264,27 @@ func TestC08IndexWalk(t *testing.T) {
 		return c
 	}, execC17r)
 }
+
+// TestC06IndexWalk / TestC07IndexWalk: the same scenario decides "the view equals the last-writer-wins replay of
+// the log" for key-value and document stores when view updates overlap.
+func TestC06IndexWalk(t *testing.T) {
+	runCheck(t, "C06", func(rt *rapid.T) CaseC17r {
+		c := genC17r(rt)
+		c.Type = "keyvalue"
+		if c.First == "update" && rapid.Bool().Draw(rt, "real") {
+			c.First = "write"
+		}
+		return c
+	}, execC17r)
+}
+
+func TestC07IndexWalk(t *testing.T) {
+	runCheck(t, "C07", func(rt *rapid.T) CaseC17r {
+		c := genC17r(rt)
+		c.Type = "docstore"
+		if c.First == "update" && rapid.Bool().Draw(rt, "real") {
+			c.First = "merge"
+		}
+		return c
+	}, execC17r)
+}
